@@ -193,7 +193,7 @@ impl Property for C08 {
     }
     fn check(&self, case: &Case, st: &mut Stats) -> CheckResult {
         let text = render_text(&case.expr);
-        let g = match build(&text) {
+        let g = match build_either(&text) {
             Ok(Ok(g)) => g,
             Ok(Err(_)) => {
                 st.count("not_built");
